@@ -616,10 +616,20 @@ impl<'a, RK: RadioKind, C: Probe> Driver<'a, RK, C> {
                 }
                 stop = true;
             }
-            Res::Panic(_, loc, _) => {
+            Res::Panic(msg, loc, kind) => {
                 self.col.event("panics");
-                if loc.contains("lrv-") || loc.contains("/verif/") {
+                if loc.starts_with("lrv-") || loc.contains("/harness/lrv-") || loc.starts_with("/verif/") {
                     self.col.event("harness_panic");
+                } else {
+                    // whatever the call was asked to do in whatever mode, the statement leaves it two ways
+                    // out: carry it out, or refuse it / fail and say so. Unwinding out of the driver is neither
+                    // (the driver's mode and the chip are left wherever the unwinding found them)
+                    
+                    self.found.push(Found {
+                        sig: format!("C14|lora|panic|{}|{}|{}", call.api(), before_name, kind),
+                        what: "a physical-layer call neither carried the operation out nor refused it: it panicked".into(),
+                        detail: mk_detail(json!({"panic": msg, "at": loc})),
+                    });
                 }
                 stop = true;
             }
@@ -778,8 +788,10 @@ fn seq_name(calls: &[Call]) -> String {
 }
 
 fn unsupported(var: Var, calls: &[Call]) -> bool {
-    // receive duty cycle does not exist on SX127x (documented by the driver)
-    !var.is_126x() && calls.contains(&Call::PrepRxDuty)
+    // (receive duty cycle does not exist on SX127x: the driver has to refuse it somewhere, like any
+    // other operation it cannot carry out - the sequences contain it all the same)
+    let _ = (var, calls);
+    false
 }
 
 fn run_plain(plan: &Plan, col: &mut Collector) -> Option<RunOut> {
